@@ -9,6 +9,7 @@ import Sbepp.Drive.C12
 import Sbepp.Drive.C13
 import Sbepp.Drive.C16
 import Sbepp.Drive.C06
+import Sbepp.Drive.C18
 import Sbepp.Drive.Wire
 
 open Sbepp.Drive
@@ -22,6 +23,7 @@ def dispatch (line : String) : String :=
   else if line.startsWith "encode " then Wire.encode (payloadOf line "encode")
   else if line.startsWith "visit " then Wire.visit (payloadOf line "visit")
   else if line.startsWith "checked " then C06.handle (payloadOf line "checked")
+  else if line.startsWith "traits " then C18.handle (payloadOf line "traits")
   else
   match (line.trimAscii.toString.splitOn " ").filter (· ≠ "") with
   | [] => ""
